@@ -52,7 +52,7 @@ type R implements Node { id: ID! name: Int } \
 type Query { decoy: Int }";
 
 /// response shapes: same-named fields of different nullability / list-ness / kind
-pub const SCHEMA_3: &str = "type Query { ab: AB n: Int s: String fl: Float id: ID b: Boolean } \
+pub const SCHEMA_3: &str = "type Query { ab: AB n: Int s: String fl: Float id: ID b: Boolean lq(x: [Int!]!, y: [Int]! = [1]): Int } \
 union AB = A | B \
 type A { n: Int nn: Int! l: [Int] ln: [Int!] s: String o: A } \
 type B { n: Int nn: Int! l: [Int] ln: [Int!] s: String o: B }";
@@ -84,6 +84,8 @@ pub const BASE_PAIRS: &[(usize, &str, &str)] = &[
     (0, "b17-custom-scalar-literals", "{ cn(s: [null, 1, {k: null}]) c(s: [null]) x: cn(s: {k: [null]}) y: cn(s: A) }"),
     (2, "b18-leaf-and-composite-under-type-conditions", "{ ab { ... on A { k: n } ... on B { j: o { s } k: n } } }"),
     (2, "b19-leaf-beside-composite-disjoint-parents", "{ ab { ... on A { k: n } ... on B { j: o { s } } } }"),
+    (0, "b20-fragment-spread-twice-with-directive-variable", "query Q($v: Int) { t { ...F ...F @d(x: $v) } } fragment F on T { a }"),
+    (2, "b21-nullable-list-variables-in-non-null-list-positions", "query($v: [Int!] = [1], $w: [Int!]) { lq(x: $v, y: $w) }"),
     (2, "b15-response-shapes-fragments", "{ ab { ...FA ...FB } } fragment FA on A { v: ln o { o { s } } } fragment FB on B { v: ln o { o { s } } }"),
 ];
 
